@@ -2,6 +2,7 @@
 import copy
 import multiprocessing as mp
 import random
+import re
 
 from vf import execharness as H
 from vf import ref_validate as RV
@@ -116,6 +117,16 @@ LABELLED = [
     ("FieldsOnCorrectType", "{ people { ... @include(if: true) { ... { nope } } } }"),
     ("ScalarLeafs", "{ people { ... { name { x } } } }"),
     ("ScalarLeafs", "{ owned { ... { owner } } }"),
+    # conflicts only reachable by comparing the fragments spread at two DIFFERENT places with each other: every pair, whatever the fragments are called
+    ("OverlappingFieldsCanBeMerged", "{ people { best { ...Alpha } } people { best { ...Zed } } } fragment Alpha on Dog { n: name } fragment Zed on Dog { n: barks }"),
+    ("OverlappingFieldsCanBeMerged", "{ people { best { ...Zed } } people { best { ...Alpha } } } fragment Alpha on Dog { n: name } fragment Zed on Dog { n: barks }"),
+    ("OverlappingFieldsCanBeMerged", "{ people { best { ...Zed } } people { best { ...Alpha } } } fragment Zed on Dog { n: name } fragment Alpha on Dog { n: barks }"),
+    ("OverlappingFieldsCanBeMerged", "{ me { best { ...B } } me { best { ...A } } } fragment B on Dog { owner { ...BI } } fragment A on Dog { owner { ...AI } } "
+                                     "fragment BI on Person { x: name } fragment AI on Person { x: age }"),
+    ("OverlappingFieldsCanBeMerged", "{ me { best { ...A } } me { best { ...B } } } fragment B on Dog { owner { ...BI } } fragment A on Dog { owner { ...AI } } "
+                                     "fragment BI on Person { x: name } fragment AI on Person { x: age }"),
+    ("ValuesOfCorrectType", "{ echo(f: {subs: {min: \"x\"}}) }"),
+    ("VariablesInAllowedPosition", "query ($n: String) { echo(f: {subs: {min: $n}}) }"),
     # the meta fields have a response shape like any other field (String! for __typename), also below a union (hunt H3/9)
     ("OverlappingFieldsCanBeMerged", "{ pet { ... on Dog { x: __typename } ... on Cat { x: lives } } }"),
     ("OverlappingFieldsCanBeMerged", "{ named { ... on Dog { x: __typename } ... on Cat { x: name } } }"),
@@ -142,6 +153,7 @@ type Query {
   scalarWithDefault(n: Int! = 1): Int
   nested(matrix: [[Int!]] = [[1]]): Int
   search(filter: Filter = {}): Int
+  many(filters: [Filter!], nested: [[Filter]]): Int
 }
 """
 EXTRA_LABELLED = [
@@ -158,6 +170,12 @@ EXTRA_LABELLED = [
     ("VariablesInAllowedPosition", "query ($v: Int) { nested(matrix: [[$v]]) }"),
     ("VariablesInAllowedPosition", "query ($s: String) { search(filter: {tags: [$s]}) }"),
     ("VariablesInAllowedPosition", "query ($v: Int) { withoutDefault(list: [$v]) }"),
+    # a single input object written where a list of them is expected is that object's literal: its fields are typed all the same
+    ("ValuesOfCorrectType", "{ many(filters: {ids: \"ten\"}) }"),
+    ("ValuesOfCorrectType", "{ many(filters: {nope: 1}) }"),
+    ("VariablesInAllowedPosition", "query ($n: String) { many(filters: {ids: $n}) }"),
+    ("VariablesInAllowedPosition", "query ($n: String) { many(filters: [{ids: $n}]) }"),
+    ("ValuesOfCorrectType", "{ many(nested: {ids: [true]}) }"),
     # an inline fragment without type condition keeps the enclosing type, also below list and non-null fields
     ("FieldsOnCorrectType", "{ dogs { ... { nope } } }"),
     ("FieldsOnCorrectType", "{ bestDog { ... @include(if: true) { nope } } }"),
@@ -175,6 +193,9 @@ EXTRA_VALID = [
     "query ($v: [Int!]) { withDefault(list: $v) }",
     "query ($s: String!) { search(filter: {tags: [$s]}) }",
     "query ($t: [String!]) { search(filter: {tags: $t}) }",
+    "query ($n: [Int!]) { many(filters: {ids: $n}) }",
+    "query ($n: Int!) { many(filters: {ids: [$n]}, nested: {ids: 1}) }",
+    "{ many(filters: [{ids: [1]}, {tags: \"x\"}], nested: [[{ids: 2}], null]) }",
 ]
 # valid documents that exercise order-dependent machinery
 VALID_TRICKY = [
@@ -184,6 +205,7 @@ VALID_TRICKY = [
     "subscription { __x: tick }",
     "subscription { ...F } fragment F on Subscription { __typename }",
     "{ __me: me { __n: name __typename } }",
+    "query ($n: Int = 3) { echo(f: {subs: {min: $n, sub: {min: 2}}}) }",
     # several operations: each has its own variables, the same name may be declared with another type, shared fragments are judged per operation
     "query Full($flag: Boolean!) { ...Left ...Right } query Partial($flag: Boolean!) { ...Right } fragment Left on Query { count ...Leaf } "
     "fragment Right on Query { me { name } ...Leaf } fragment Leaf on Query { echo @include(if: $flag) }",
@@ -296,6 +318,8 @@ def _chunk(args):
         except Exception:
             continue      # crashes are C05's business
         ref = RV.validate(schema, parse(text))
+        if re.search(r"\bany\s*:\s*[\[{]", text):
+            continue      # which list / object literals a custom scalar without literal parser accepts is that scalar's business (false alarm no. 29): no verdict to compare
         lv, rv = not lib, not ref
         agree_valid += lv and rv
         if lv != rv:
